@@ -14,13 +14,13 @@ def check(repo, rep, tier):
                        'writes and comment/blank header lines; all byte-decoding input streams use one encoding; the tracing '
                        'wrapper is transparent; a syntax error is a CompilerError with file, line and column that main() turns '
                        'into a non-zero exit. click\'s option parsing and the operating system are trusted.')
-    re_.rule_same_path(cm, em, rep, 'C19.B1')
-    re_.rule_comment_safe_writes(cm, rep, 'C19.B2')
-    re_.rule_flags_only_comments(cm, rep, 'C19.B3')
-    re_.rule_one_decoding(cm, rep, 'C19.B4', tier)
-    re_.rule_tracer_transparent(cm, rep, 'C19.B5')
+    rep.run(re_.rule_same_path, cm, em, rep, 'C19.B1')
+    rep.run(re_.rule_comment_safe_writes, cm, rep, 'C19.B2')
+    rep.run(re_.rule_flags_only_comments, cm, rep, 'C19.B3')
+    rep.run(re_.rule_one_decoding, cm, rep, 'C19.B4', tier)
+    rep.run(re_.rule_tracer_transparent, cm, rep, 'C19.B5')
     g, gp = cm.g, cm.gp
-    lc = rf.rule_raising_recognisers(em, rep, 'C19.B6a', g)
-    rf.rule_cli_exit(em, rep, 'C19.B6', lc)
+    lc = rep.run(rf.rule_raising_recognisers, em, rep, 'C19.B6a', g)
+    rep.run(rf.rule_cli_exit, em, rep, 'C19.B6', lc or [])
     from .. import rules_extra as rx
-    rx.rule_stages_per_call(cm, em, rep, 'C19.B7')
+    rep.run(rx.rule_stages_per_call, cm, em, rep, 'C19.B7')
